@@ -9,10 +9,23 @@
    which it is yielded); [list_member] / [aoh_member attr] read the members off
    a list / an Array-of-Hashes: a null element, a record without the attribute
    and a record whose attribute is null have nothing to compare (None).
-   "Same-kind scalars": all ints or all floats, each being its own typed
-   reading ([same_kind_num]). *)
+   "Same-kind scalars": all ints, all floats or all text, each member being its
+   own typed reading ([same_kind lit k]; [same_kind_num lit ints] for the two
+   numeric kinds).  That is true of EVERY int ([C13_int_is_same_kind]); for a
+   float it says that its repr is not a spelling of true/false, for text that
+   it is no Python literal and no spelling of true/false (Nodes.typed_value
+   would read it as something else, and Searches.search_matches compares typed
+   readings).  Numbers are ordered by value ([num_le num_key]), text
+   lexicographically by code point ([text_le]).
+
+   unique / distinct: the members of a collection are (value node, coordinates)
+   ([collection_gmembers]: the elements of a plain list; the records of an
+   Array-of-Hashes / the children of a hash of hashes that HAVE the attribute
+   -- null is a value here, an absent attribute is not); [vmembers] reads the
+   scalar values off them.  Equality of values is Python's ==
+   (1 == 1.0 == True), an equivalence ([C13_py_eq_equivalence]). *)
 From Coq Require Import List Ascii String ZArith QArith Bool.
-From YP Require Import Outcome PyStr PyVal Doc PathParser Searches Keywords SpecC13 KeywordProofs.
+From YP Require Import Outcome PyStr PyVal Doc PathParser Searches Keywords SpecC13 PyValOrder KeywordProofs GroupProofs.
 Import ListNotations.
 Open Scope string_scope.
 
@@ -105,6 +118,221 @@ Theorem C13_selected_is_spec :
     (selected MLt false ms c <-> min_members coords num_key ms c) /\
     (selected MLt true ms c <-> non_min_members coords num_key ms c).
 Proof. exact (fun ms c => conj (iff_refl _) (conj (iff_refl _) (conj (iff_refl _) (iff_refl _)))). Qed.
+
+(* every int is its own typed reading: for lists of ints (nulls allowed) the
+   hypothesis of the four theorems above reduces to "the members are ints" *)
+Theorem C13_int_is_same_kind :
+  forall lit z, same_kind lit SKInt (PInt z) /\ same_kind_num lit true (PInt z).
+Proof. exact (fun lit z => conj (int_same_kind lit z) (int_same_kind lit z)). Qed.
+Print Assumptions C13_int_is_same_kind.
+
+Theorem C13_max_min_ints :
+  forall lit re_search node_str cmp invert i els x,
+    cmp = MGt \/ cmp = MLt ->
+    node_is_aoh true (NSeq i els) = false ->
+    (forall v c, In (Some v, c) (map (list_member node_str x) (enumerate els)) -> exists z, v = PInt z) ->
+    exists res,
+      extremum lit re_search node_str cmp invert [] (NSeq i els) x = Ok res /\
+      forall c, In c res <-> selected cmp invert (map (list_member node_str x) (enumerate els)) c.
+Proof. exact (fun lit re ns => extremum_list_ints lit re ns (NLeaf (mkinfo 0 None false None) PNone)). Qed.
+Print Assumptions C13_max_min_ints.
+
+(* ---- max / min over a list of text (nulls allowed): lexicographic ---- *)
+Theorem C13_max_text :
+  forall lit re_search node_str i els x,
+    node_is_aoh true (NSeq i els) = false ->
+    (forall v c, In (Some v, c) (map (list_member node_str x) (enumerate els)) -> same_kind lit SKText v) ->
+    exists res,
+      kw_max lit re_search node_str false [] (NSeq i els) x = Ok res /\
+      forall c, In c res <-> max_members_by coords text_le (map (list_member node_str x) (enumerate els)) c.
+Proof.
+  exact (fun lit re ns i els x =>
+           extremum_list_kind lit re ns (NSeq i els) MGt SKText (or_introl eq_refl) false i els x).
+Qed.
+Print Assumptions C13_max_text.
+
+Theorem C13_max_text_inverted :
+  forall lit re_search node_str i els x,
+    node_is_aoh true (NSeq i els) = false ->
+    (forall v c, In (Some v, c) (map (list_member node_str x) (enumerate els)) -> same_kind lit SKText v) ->
+    exists res,
+      kw_max lit re_search node_str true [] (NSeq i els) x = Ok res /\
+      forall c, In c res <-> non_max_members_by coords text_le (map (list_member node_str x) (enumerate els)) c.
+Proof.
+  exact (fun lit re ns i els x =>
+           extremum_list_kind lit re ns (NSeq i els) MGt SKText (or_introl eq_refl) true i els x).
+Qed.
+Print Assumptions C13_max_text_inverted.
+
+Theorem C13_min_text :
+  forall lit re_search node_str i els x,
+    node_is_aoh true (NSeq i els) = false ->
+    (forall v c, In (Some v, c) (map (list_member node_str x) (enumerate els)) -> same_kind lit SKText v) ->
+    exists res,
+      kw_min lit re_search node_str false [] (NSeq i els) x = Ok res /\
+      forall c, In c res <-> min_members_by coords text_le (map (list_member node_str x) (enumerate els)) c.
+Proof.
+  exact (fun lit re ns i els x =>
+           extremum_list_kind lit re ns (NSeq i els) MLt SKText (or_intror eq_refl) false i els x).
+Qed.
+Print Assumptions C13_min_text.
+
+Theorem C13_min_text_inverted :
+  forall lit re_search node_str i els x,
+    node_is_aoh true (NSeq i els) = false ->
+    (forall v c, In (Some v, c) (map (list_member node_str x) (enumerate els)) -> same_kind lit SKText v) ->
+    exists res,
+      kw_min lit re_search node_str true [] (NSeq i els) x = Ok res /\
+      forall c, In c res <-> non_min_members_by coords text_le (map (list_member node_str x) (enumerate els)) c.
+Proof.
+  exact (fun lit re ns i els x =>
+           extremum_list_kind lit re ns (NSeq i els) MLt SKText (or_intror eq_refl) true i els x).
+Qed.
+Print Assumptions C13_min_text_inverted.
+
+(* ---- max / min over a hash of hashes by a named attribute (present, absent,
+   repeated or null), for members of any one kind k; plain and inverted
+   ([selected_by], = the four spec predicates by C13_selected_by_is_spec) ---- *)
+Theorem C13_max_hoh :
+  forall lit re_search node_str k invert attr i kvs x,
+    forallb (fun kv => is_map (snd kv)) kvs = true ->
+    (forall v c, In (Some v, c) (map (hoh_member node_str attr x) kvs) -> same_kind lit k v) ->
+    exists res,
+      kw_max lit re_search node_str invert [attr] (NMap i kvs) x = Ok res /\
+      forall c, In c res <-> selected_by (kind_le k) MGt invert (map (hoh_member node_str attr x) kvs) c.
+Proof.
+  exact (fun lit re ns k => extremum_hoh_kind lit re ns (NLeaf (mkinfo 0 None false None) PNone) MGt k (or_introl eq_refl)).
+Qed.
+Print Assumptions C13_max_hoh.
+
+Theorem C13_min_hoh :
+  forall lit re_search node_str k invert attr i kvs x,
+    forallb (fun kv => is_map (snd kv)) kvs = true ->
+    (forall v c, In (Some v, c) (map (hoh_member node_str attr x) kvs) -> same_kind lit k v) ->
+    exists res,
+      kw_min lit re_search node_str invert [attr] (NMap i kvs) x = Ok res /\
+      forall c, In c res <-> selected_by (kind_le k) MLt invert (map (hoh_member node_str attr x) kvs) c.
+Proof.
+  exact (fun lit re ns k => extremum_hoh_kind lit re ns (NLeaf (mkinfo 0 None false None) PNone) MLt k (or_intror eq_refl)).
+Qed.
+Print Assumptions C13_min_hoh.
+
+(* ... and over an Array-of-Hashes for members of any one kind (text attributes too) *)
+Theorem C13_max_attr_kind :
+  forall lit re_search node_str k invert attr i els x,
+    node_is_aoh true (NSeq i els) = true ->
+    (forall v c, In (Some v, c) (map (aoh_member node_str attr x) (enumerate els)) -> same_kind lit k v) ->
+    exists res,
+      kw_max lit re_search node_str invert [attr] (NSeq i els) x = Ok res /\
+      forall c, In c res <-> selected_by (kind_le k) MGt invert (map (aoh_member node_str attr x) (enumerate els)) c.
+Proof.
+  exact (fun lit re ns k => extremum_aoh_kind lit re ns (NLeaf (mkinfo 0 None false None) PNone) MGt k (or_introl eq_refl)).
+Qed.
+Print Assumptions C13_max_attr_kind.
+
+Theorem C13_min_attr_kind :
+  forall lit re_search node_str k invert attr i els x,
+    node_is_aoh true (NSeq i els) = true ->
+    (forall v c, In (Some v, c) (map (aoh_member node_str attr x) (enumerate els)) -> same_kind lit k v) ->
+    exists res,
+      kw_min lit re_search node_str invert [attr] (NSeq i els) x = Ok res /\
+      forall c, In c res <-> selected_by (kind_le k) MLt invert (map (aoh_member node_str attr x) (enumerate els)) c.
+Proof.
+  exact (fun lit re ns k => extremum_aoh_kind lit re ns (NLeaf (mkinfo 0 None false None) PNone) MLt k (or_intror eq_refl)).
+Qed.
+Print Assumptions C13_min_attr_kind.
+
+Theorem C13_selected_by_is_spec :
+  forall le ms c,
+    (selected_by le MGt false ms c <-> max_members_by coords le ms c) /\
+    (selected_by le MGt true ms c <-> non_max_members_by coords le ms c) /\
+    (selected_by le MLt false ms c <-> min_members_by coords le ms c) /\
+    (selected_by le MLt true ms c <-> non_min_members_by coords le ms c).
+Proof. exact (fun le ms c => conj (iff_refl _) (conj (iff_refl _) (conj (iff_refl _) (iff_refl _)))). Qed.
+
+(* the orders are total orders (so "greatest" is well defined on a kind) *)
+Theorem C13_kind_order_total :
+  forall k, (forall a, kind_le k a a) /\ (forall a b c, kind_le k a b -> kind_le k b c -> kind_le k a c) /\
+            (forall a b, kind_le k a b \/ kind_le k b a).
+Proof. exact (fun k => conj (kind_le_refl k) (conj (kind_le_trans k) (kind_le_total k))). Qed.
+Print Assumptions C13_kind_order_total.
+
+(* ---- unique / distinct ---- *)
+Theorem C13_py_eq_equivalence :
+  (forall v, py_eq v v = true) /\ (forall v w, py_eq v w = py_eq w v) /\
+  (forall u v w, py_eq u v = true -> py_eq v w = true -> py_eq u w = true).
+Proof. exact (conj py_eq_refl (conj py_eq_sym py_eq_trans)). Qed.
+Print Assumptions C13_py_eq_equivalence.
+
+(* unique: exactly the members whose value occurs once, in collection order *)
+Theorem C13_unique :
+  forall params data x gs,
+    collection_gmembers params data x = Some gs -> scalar_members gs ->
+    kw_unique false params data x = Ok (once_members coords (vmembers gs)).
+Proof. exact unique_plain. Qed.
+Print Assumptions C13_unique.
+
+(* unique inverted: exactly the members whose value occurs more than once --
+   yielded group by group, the groups in order of first occurrence *)
+Theorem C13_unique_inverted :
+  forall params data x gs,
+    collection_gmembers params data x = Some gs -> scalar_members gs ->
+    kw_unique true params data x = Ok (repeated_grouped coords (vmembers gs)).
+Proof. exact unique_inverted. Qed.
+Print Assumptions C13_unique_inverted.
+
+Theorem C13_repeated_grouped_is_spec :
+  forall ms c, In c (repeated_grouped coords ms) <-> repeated_member coords ms c.
+Proof. exact repeated_grouped_set. Qed.
+Print Assumptions C13_repeated_grouped_is_spec.
+
+(* distinct: the first member of each group of equal values, in order of first
+   occurrence *)
+Theorem C13_distinct_first_of_group :
+  forall params data x gs,
+    collection_gmembers params data x = Some gs -> scalar_members gs ->
+    kw_distinct false params data x = Ok (firsts coords [] (vmembers gs)).
+Proof. exact distinct_first_of_group. Qed.
+Print Assumptions C13_distinct_first_of_group.
+
+(* [firsts], said without recursion: a member is yielded iff no earlier member
+   has an equal value *)
+Theorem C13_firsts_is_spec :
+  forall ms c,
+    In c (firsts coords [] ms) <->
+    exists pre v post, ms = (pre ++ (v, c) :: post)%list /\ vhas pre v = false.
+Proof. exact firsts_set. Qed.
+Print Assumptions C13_firsts_is_spec.
+
+Theorem C13_distinct_inverted_refused :
+  forall params data x, kw_distinct true params data x = Raise (YPE Generic).
+Proof. exact distinct_inverted_refused. Qed.
+
+(* a value that is a Hash, Array or Set cannot be grouped: YAMLPathException
+   (after the fix; a bare TypeError before) *)
+Theorem C13_group_refuses_containers :
+  forall invert params data x gs,
+    collection_gmembers params data x = Some gs ->
+    (exists vn c, In (Some vn, c) gs /\ forall i v, vn <> NLeaf i v) ->
+    kw_unique invert params data x = Raise (YPE Generic) /\
+    kw_distinct invert params data x = Raise (YPE Generic).
+Proof. exact group_refuses. Qed.
+Print Assumptions C13_group_refuses_containers.
+
+(* parameter present / absent where it must not / must be: more than one
+   parameter, a parameter with a plain list, none with an Array-of-Hashes or a
+   hash -- refused by max, min, unique and distinct alike *)
+Theorem C13_parameter_misuse_refused :
+  forall lit re_search node_str cmp invert params data x,
+    (1 < List.length params \/
+     (exists i els p, data = NSeq i els /\ node_is_aoh true data = false /\ params = [p]) \/
+     (exists i els, data = NSeq i els /\ node_is_aoh true data = true /\ params = []) \/
+     (exists i kvs, data = NMap i kvs /\ params = [])) ->
+    extremum lit re_search node_str cmp invert params data x = Raise (YPE Generic) /\
+    kw_unique invert params data x = Raise (YPE Generic) /\
+    kw_distinct invert params data x = Raise (YPE Generic).
+Proof. exact params_refused. Qed.
+Print Assumptions C13_parameter_misuse_refused.
 
 (* ---- has_child ---- *)
 Theorem C13_has_child_hash :
@@ -216,3 +444,161 @@ Example C13_ex_has_child :
   omap (map c_node) (has_child ex_doc false ["x"] ex_doc (mkkctx [] None None [] [])) = Ok [AtLoc []] /\
   has_child ex_doc true ["x"] ex_doc (mkkctx [] None None [] []) = Ok [].
 Proof. split; [discriminate|]. vm_compute. split; reflexivity. Qed.
+
+(* ---- non-vacuity of the theorems about text, hashes of hashes, ints,
+   unique and distinct ---- *)
+Definition mp (o : N) (kvs : list (node * node)) : node := NMap (mkinfo o None false None) kvs.
+
+(* the hypotheses of C13_max_min_ints hold of x: [3, null, 5, 5] *)
+Example C13_ex_ints_hyps :
+  node_is_aoh true ex_list = false /\
+  forall v c, In (Some v, c) (map (list_member ex_str ex_ctx) (enumerate [lf 3 (PInt 3); lf 4 PNone; lf 5 (PInt 5); lf 5 (PInt 5)])) ->
+    exists z, v = PInt z.
+Proof.
+  split; [reflexivity|]. intros v c H. cbv in H.
+  repeat (destruct H as [H|H]; [inversion H; subst; eexists; reflexivity|]). contradiction.
+Qed.
+
+(* x: [abc, null, abd, Zed, abd]: words, i.e. ast.literal_eval rejects them *)
+Definition ex_lit_t : string -> outcome litres :=
+  lit_of_table [("abc", LFail); ("abd", LFail); ("Zed", LFail)].
+Definition ex_words : list node :=
+  [lf 3 (PStr "abc"); lf 4 PNone; lf 5 (PStr "abd"); lf 6 (PStr "Zed"); lf 7 (PStr "abd")].
+Definition ex_tlist : node := NSeq (mkinfo 2 None true None) ex_words.
+
+Example C13_ex_text_hyps :
+  node_is_aoh true ex_tlist = false /\
+  forall v c, In (Some v, c) (map (list_member ex_str ex_ctx) (enumerate ex_words)) -> same_kind ex_lit_t SKText v.
+Proof.
+  split; [reflexivity|]. intros v c H. cbv in H.
+  repeat (destruct H as [H|H]; [inversion H; subst; (split; [eexists; reflexivity|vm_compute; reflexivity])|]).
+  contradiction.
+Qed.
+(* max: both abd; min: Zed (capitals sort first); inverted max: the others, the null included *)
+Example C13_ex_text :
+  omap (map c_node) (kw_max ex_lit_t ex_re ex_str false [] ex_tlist ex_ctx) =
+    Ok [AtLoc [RKey (PStr "x"); RIdx 2]; AtLoc [RKey (PStr "x"); RIdx 4]] /\
+  omap (map c_node) (kw_min ex_lit_t ex_re ex_str false [] ex_tlist ex_ctx) =
+    Ok [AtLoc [RKey (PStr "x"); RIdx 3]] /\
+  omap (map c_node) (kw_max ex_lit_t ex_re ex_str true [] ex_tlist ex_ctx) =
+    Ok [AtLoc [RKey (PStr "x"); RIdx 1]; AtLoc [RKey (PStr "x"); RIdx 0]; AtLoc [RKey (PStr "x"); RIdx 3]].
+Proof. vm_compute. repeat split; reflexivity. Qed.
+
+(* x: {r0: {p: 2}, r1: {p: null}, r2: {q: 1}, r3: {p: 2}, r4: {p: 1}} *)
+Definition ex_hoh_kvs : list (node * node) :=
+  [(lf 11 (PStr "r0"), mp 12 [(lf 13 (PStr "p"), lf 14 (PInt 2))]);
+   (lf 15 (PStr "r1"), mp 16 [(lf 13 (PStr "p"), lf 4 PNone)]);
+   (lf 17 (PStr "r2"), mp 18 [(lf 19 (PStr "q"), lf 20 (PInt 1))]);
+   (lf 21 (PStr "r3"), mp 22 [(lf 13 (PStr "p"), lf 14 (PInt 2))]);
+   (lf 23 (PStr "r4"), mp 24 [(lf 13 (PStr "p"), lf 20 (PInt 1))])].
+Definition ex_hoh : node := mp 10 ex_hoh_kvs.
+
+Example C13_ex_hoh_hyps :
+  forallb (fun kv => is_map (snd kv)) ex_hoh_kvs = true /\
+  forall v c, In (Some v, c) (map (hoh_member ex_str "p" ex_ctx) ex_hoh_kvs) -> same_kind ex_lit SKInt v.
+Proof.
+  split; [reflexivity|]. intros v c H. cbv in H.
+  repeat (destruct H as [H|H]; [inversion H; subst; apply int_same_kind|]). contradiction.
+Qed.
+Example C13_ex_hoh :
+  omap (map c_node) (kw_max ex_lit ex_re ex_str false ["p"] ex_hoh ex_ctx) =
+    Ok [AtLoc [RKey (PStr "x"); RKey (PStr "r0")]; AtLoc [RKey (PStr "x"); RKey (PStr "r3")]] /\
+  omap (map c_node) (kw_max ex_lit ex_re ex_str true ["p"] ex_hoh ex_ctx) =
+    Ok [AtLoc [RKey (PStr "x"); RKey (PStr "r1")]; AtLoc [RKey (PStr "x"); RKey (PStr "r2")];
+        AtLoc [RKey (PStr "x"); RKey (PStr "r4")]] /\
+  omap (map c_node) (kw_min ex_lit ex_re ex_str false ["p"] ex_hoh ex_ctx) =
+    Ok [AtLoc [RKey (PStr "x"); RKey (PStr "r4")]].
+Proof. vm_compute. repeat split; reflexivity. Qed.
+
+(* unique / distinct: the hypotheses hold of the list x: [3, null, 5, 5] ... *)
+Example C13_ex_group_list_hyps :
+  exists gs, collection_gmembers [] ex_list ex_ctx = Some gs /\ scalar_members gs /\
+             map fst (vmembers gs) = [PInt 3; PNone; PInt 5; PInt 5].
+Proof.
+  eexists. split; [reflexivity|]. split; [|reflexivity].
+  intros vn c H. cbv in H.
+  repeat (destruct H as [H|H]; [inversion H; subst; eexists; eexists; reflexivity|]). contradiction.
+Qed.
+
+(* ... of the Array-of-Hashes x: [{p: 1}, {q: 1}, {p: 1.0}, {p: null}, {p: abc}, {p: true}] by p
+   (the record without p is no member; 1 == 1.0 == True) ... *)
+Definition ex_aoh : node :=
+  NSeq (mkinfo 30 None true None)
+    [mp 31 [(lf 13 (PStr "p"), lf 20 (PInt 1))];
+     mp 32 [(lf 19 (PStr "q"), lf 20 (PInt 1))];
+     mp 33 [(lf 13 (PStr "p"), lf 34 (PFloat 1 "1.0"))];
+     mp 35 [(lf 13 (PStr "p"), lf 4 PNone)];
+     mp 36 [(lf 13 (PStr "p"), lf 3 (PStr "abc"))];
+     mp 37 [(lf 13 (PStr "p"), lf 38 (PBool true))]].
+Example C13_ex_group_aoh_hyps :
+  exists gs, collection_gmembers ["p"] ex_aoh ex_ctx = Some gs /\ scalar_members gs /\
+             map fst (vmembers gs) = [PInt 1; PFloat 1 "1.0"; PNone; PStr "abc"; PBool true].
+Proof.
+  eexists. split; [reflexivity|]. split; [|reflexivity].
+  intros vn c H. cbv in H.
+  repeat (destruct H as [H|H]; [inversion H; subst; eexists; eexists; reflexivity|]). contradiction.
+Qed.
+Example C13_ex_group_aoh :
+  omap (map c_node) (kw_unique false ["p"] ex_aoh ex_ctx) =
+    Ok [AtLoc [RKey (PStr "x"); RIdx 3]; AtLoc [RKey (PStr "x"); RIdx 4]] /\
+  omap (map c_node) (kw_unique true ["p"] ex_aoh ex_ctx) =
+    Ok [AtLoc [RKey (PStr "x"); RIdx 0]; AtLoc [RKey (PStr "x"); RIdx 2]; AtLoc [RKey (PStr "x"); RIdx 5]] /\
+  omap (map c_node) (kw_distinct false ["p"] ex_aoh ex_ctx) =
+    Ok [AtLoc [RKey (PStr "x"); RIdx 0]; AtLoc [RKey (PStr "x"); RIdx 3]; AtLoc [RKey (PStr "x"); RIdx 4]].
+Proof. vm_compute. repeat split; reflexivity. Qed.
+
+(* ... and of the hash of hashes above by p: 2 twice, null and 1 once *)
+Example C13_ex_group_hoh_hyps :
+  exists gs, collection_gmembers ["p"] ex_hoh ex_ctx = Some gs /\ scalar_members gs /\
+             map fst (vmembers gs) = [PInt 2; PNone; PInt 2; PInt 1].
+Proof.
+  eexists. split; [reflexivity|]. split; [|reflexivity].
+  intros vn c H. cbv in H.
+  repeat (destruct H as [H|H]; [inversion H; subst; eexists; eexists; reflexivity|]). contradiction.
+Qed.
+Example C13_ex_group_hoh :
+  omap (map c_node) (kw_unique false ["p"] ex_hoh ex_ctx) =
+    Ok [AtLoc [RKey (PStr "x"); RKey (PStr "r1")]; AtLoc [RKey (PStr "x"); RKey (PStr "r4")]] /\
+  omap (map c_node) (kw_unique true ["p"] ex_hoh ex_ctx) =
+    Ok [AtLoc [RKey (PStr "x"); RKey (PStr "r0")]; AtLoc [RKey (PStr "x"); RKey (PStr "r3")]] /\
+  omap (map c_node) (kw_distinct false ["p"] ex_hoh ex_ctx) =
+    Ok [AtLoc [RKey (PStr "x"); RKey (PStr "r0")]; AtLoc [RKey (PStr "x"); RKey (PStr "r1")];
+        AtLoc [RKey (PStr "x"); RKey (PStr "r4")]].
+Proof. vm_compute. repeat split; reflexivity. Qed.
+
+(* inverted unique comes group by group: x: [5, 3, 5, 3] -> x[0], x[2], x[1], x[3] *)
+Example C13_ex_unique_inverted_order :
+  omap (map c_node)
+       (kw_unique true [] (NSeq (mkinfo 2 None true None) [lf 5 (PInt 5); lf 3 (PInt 3); lf 5 (PInt 5); lf 3 (PInt 3)]) ex_ctx) =
+    Ok [AtLoc [RKey (PStr "x"); RIdx 0]; AtLoc [RKey (PStr "x"); RIdx 2];
+        AtLoc [RKey (PStr "x"); RIdx 1]; AtLoc [RKey (PStr "x"); RIdx 3]].
+Proof. vm_compute. reflexivity. Qed.
+
+(* x: [1, [2], 1]: the hypotheses of C13_group_refuses_containers hold *)
+Definition ex_nested : node :=
+  NSeq (mkinfo 40 None true None) [lf 20 (PInt 1); NSeq (mkinfo 41 None false None) [lf 14 (PInt 2)]; lf 20 (PInt 1)].
+Example C13_ex_group_refuses :
+  (exists gs, collection_gmembers [] ex_nested ex_ctx = Some gs /\
+     exists vn c, In (Some vn, c) gs /\ forall i v, vn <> NLeaf i v) /\
+  kw_unique false [] ex_nested ex_ctx = Raise (YPE Generic) /\
+  kw_distinct false [] ex_nested ex_ctx = Raise (YPE Generic).
+Proof.
+  split; [|split; reflexivity].
+  eexists. split; [reflexivity|]. eexists. eexists. split; [right; left; reflexivity|]. intros i v. discriminate.
+Qed.
+
+(* x: [5, 5.0] -- ints mixed with floats are outside "same-kind scalars": the
+   code orders them numerically but tests equality on their text, so max()
+   yields only the first of two numerically equal members *)
+Example C13_ex_mixed_numeric_outside :
+  omap (map c_node)
+       (kw_max ex_lit ex_re ex_str false []
+          (NSeq (mkinfo 2 None true None) [lf 5 (PInt 5); lf 6 (PFloat 5 "5.0")]) ex_ctx) =
+    Ok [AtLoc [RKey (PStr "x"); RIdx 0]].
+Proof. vm_compute. reflexivity. Qed.
+
+Example C13_ex_parameter_misuse :
+  kw_max ex_lit ex_re ex_str false ["p"] ex_list ex_ctx = Raise (YPE Generic) /\
+  kw_unique false [] ex_hoh ex_ctx = Raise (YPE Generic) /\
+  kw_distinct false ["p"; "q"] ex_aoh ex_ctx = Raise (YPE Generic).
+Proof. vm_compute. repeat split; reflexivity. Qed.
